@@ -25,6 +25,9 @@ type maskCase struct {
 	Key   uint32 `json:"key"`
 	Seed  int64  `json:"content_seed"`
 	Split []int  `json:"split,omitempty"` // piece boundaries
+	// SpareCap: the slice handed to the implementation has capacity beyond its length (buf[a:b] of a larger
+	// array, as callers' buffers usually are); the bytes after it are guard bytes all the same
+	SpareCap bool `json:"spare_cap,omitempty"`
 }
 
 const guard = 64
@@ -52,6 +55,9 @@ func runMaskCase(c maskCase) (got []byte, gotKey uint32, in []byte, fail string)
 		base++
 	}
 	buf := raw[base+guard : base+guard+c.Len : base+guard+c.Len]
+	if c.SpareCap {
+		buf = raw[base+guard : base+guard+c.Len]
+	}
 	in = append([]byte(nil), buf...)
 	before := append([]byte(nil), raw...)
 	f := implMask(c.Impl)
@@ -70,7 +76,11 @@ func runMaskCase(c maskCase) (got []byte, gotKey uint32, in []byte, fail string)
 		} else {
 			prev := 0
 			for _, s := range append(append([]int{}, c.Split...), c.Len) {
-				key = f(buf[prev:s:s], key)
+				if c.SpareCap {
+					key = f(buf[prev:s], key)
+				} else {
+					key = f(buf[prev:s:s], key)
+				}
 				prev = s
 			}
 		}
@@ -91,7 +101,7 @@ func init() { runners["C17"] = runC17 }
 func runC17(ctx *runCtx) {
 	rep := ctx.rep
 	rep.Rule = "cases = impl x length x start alignment (mod 64) x key (4 distinguishable bytes) x optional split into 2/3 pieces; " +
-		"every case is compared with a byte-wise oracle written from the property and guard zones are checked; " +
+		"every case is compared with a byte-wise oracle written from the property and guard zones are checked, with slices whose capacity ends at their length and slices with spare capacity behind them; " +
 		"a stratified subset is also run through the Lean spec (mask) and the regenerated Lean program (maskprog). " +
 		"non-trivial = length>0; distinct key = impl/len/align/splitcount"
 	rng := newRng(ctx.seed, "c17")
@@ -163,6 +173,9 @@ func runC17(ctx *runCtx) {
 				cs++
 				k := keys[int(cs)%len(keys)]
 				check(maskCase{Impl: impl, Len: l, Align: a, Key: k, Seed: ctx.seed + cs})
+				if l < 140 || cs%7 == 0 {
+					check(maskCase{Impl: impl, Len: l, Align: a, Key: k, Seed: ctx.seed + cs, SpareCap: true})
+				}
 			}
 		}
 	}
@@ -177,7 +190,7 @@ func runC17(ctx *runCtx) {
 		for l := 1; l <= l2; l++ {
 			for s := 0; s <= l; s++ {
 				cs++
-				check(maskCase{Impl: impl, Len: l, Align: int(cs) % 64, Key: keys[int(cs)%2], Seed: ctx.seed + cs, Split: []int{s}})
+				check(maskCase{Impl: impl, Len: l, Align: int(cs) % 64, Key: keys[int(cs)%2], Seed: ctx.seed + cs, Split: []int{s}, SpareCap: cs%2 == 0})
 			}
 		}
 		for i := 0; i < n3; i++ {
